@@ -281,9 +281,10 @@ func cmdCheck(args []string) int {
 			rep.problems = append(rep.problems, fmt.Sprintf("%s: out of reach: %s", c.Key, u))
 		}
 		// A function that belongs to this property ONLY through its `deterministic[Cxx]` clause and carries functional
-		// clauses of other properties is checked here for determinism only (no reachable call of a node-local source, every
-		// callee deterministic); its frame, loop, call-site and functional obligations are discharged by the checks of the
-		// properties its other labels name (reported in the evidence as determinism-only).
+		// clauses of other properties is checked here for determinism only: no reachable call of a node-local source, every callee
+		// deterministic, and the FRAME obligations (it writes nothing but what its modifies clause names: no hidden
+		// node-local memory such as a process-wide cache). Its loop, call-site and functional obligations are discharged by
+		// the checks of the properties its other labels name (reported in the evidence as determinism-only).
 		detOnly := !c.StrongProps[*prop] && len(c.StrongProps) > 0
 		if detOnly {
 			rep.detOnly = append(rep.detOnly, c.Key+" (other obligations under "+strings.Join(sortedKeys(c.StrongProps), ",")+")")
@@ -292,7 +293,7 @@ func cmdCheck(args []string) int {
 			if !labelRelevant(o.Label, *prop) {
 				continue
 			}
-			if detOnly && o.Kind != "deterministic" && !o.Cover {
+			if detOnly && o.Kind != "deterministic" && o.Kind != "frame" && !o.Cover {
 				continue
 			}
 			j := &job{fr: fr, o: o}
